@@ -402,7 +402,7 @@ def r21n(F):
 
 def _narrow_homes(F, name):
     """narrow_cached and the private helpers of Shape it hands part of its work to (same file, called from it)"""
-    fn = F.fn(name)
+    fn = F.fn(name, flat=False)      # evaluated as written: the interpreter enters helpers itself
     out = [name]
     for b, t in fn.calls():
         c = callee(t)
@@ -420,7 +420,7 @@ def r21q(F):
                    "others left unknown", floor=2)
     from .. import absint as AI
     name = SHAPE + "::narrow_cached"
-    fn = F.fn(name)
+    fn = F.fn(name, flat=False)      # evaluated as written: the interpreter enters helpers itself
     need(fn is not None, "Shape::narrow_cached not found")
     # the candidate loops: closures (or loops) of narrow_cached that call narrow_cached on an element of a candidate list
     homes = _narrow_homes(F, name)
@@ -473,8 +473,8 @@ def r21m(F):
                    "that extends an earlier one is lost and its extra fields are rejected", floor=1)
     name = "ucglib::ast::NarrowedShape::merge_in_shape"
     eqn = SHAPE + "::equivalent"
-    fn = F.fn(name)
-    eq = F.fn(eqn)
+    fn = F.fn(name, flat=False)      # evaluated as written: the interpreter enters helpers itself
+    eq = F.fn(eqn, flat=False)
     need(fn is not None and eq is not None, "merge_in_shape / Shape::equivalent not found")
     # is `equivalent` still directional?  A comparison of the two field counts would make the tuple arm symmetric.
     lens = [b for b, t in eq.calls() if callee(t).endswith("Vec<T, A>::len") or callee(t).endswith("Vec<T,A>::len")]
@@ -527,7 +527,7 @@ def r21e(F):
                    "empty list and reports a type error) - evaluated with `is_empty()` answering true", floor=2)
     from .. import absint as AI
     name = SHAPE + "::narrow_cached"
-    fn = F.fn(name)
+    fn = F.fn(name, flat=False)      # evaluated as written: the interpreter enters helpers itself
     need(fn is not None, "Shape::narrow_cached not found")
     homes = _narrow_homes(F, name)
     cmp_closures = set()
@@ -557,7 +557,7 @@ def r21e(F):
     # the same for a selector applied to such a shape (`l.0.name` where l started as `[]`): with every is_empty() true and the
     # walk over the candidates ending at once, no type error is built after the walk
     dn = TC + "derive_dot_expression"
-    dot = F.fn(dn)
+    dot = F.fn(dn, flat=False)
     need(dot is not None, "derive_dot_expression not found")
     helpers = [dn]
     for b, t in dot.calls():
@@ -594,6 +594,47 @@ def r21e(F):
     return r
 
 
+def r21f(F):
+    r = RuleResult("R21f", "a target of unknown kind is accepted whatever the callback looks like",
+                   "map / filter / reduce over a value the checker knows nothing about (a Hole, or `any`): the VM decides at run time "
+                   "whether it is a list, a tuple or a string and how many arguments the callback gets, so the checker must not "
+                   "report a type error that presumes one of them - evaluated with the target's shape forced to the unknown kind and "
+                   "the callback's shape a function of unknown arity", floor=4)
+    from .. import absint as AI
+    name = TC + "derive_func_op_shape"
+    fn = F.fn(name, flat=False)      # evaluated as written: the interpreter enters helpers itself
+    need(fn is not None, "derive_func_op_shape not found")
+    o = Origins(fn)
+    DS = [c for c in {callee(t) for b, t in fn.calls()} if c.endswith("::derive_shape")]
+    need(DS, "derive_func_op_shape derives no shapes")
+    helpers = [name] + sorted({callee(t) for b, t in fn.calls() if callee(t).startswith(TC) and callee(t) in F.fns and callee(t) != name
+                               and "{closure" not in callee(t) and not callee(t).endswith("::derive_shape")})
+    terr = {(h, b) for h in helpers for b, j, pl, rv, m in F.fns[h].assigns()
+            if rv["k"] == "agg" and rv.get("adt") == SHAPE and rv.get("variant") == "TypeErr"}
+    func_shape = ("e", SHAPE, "Func", ())
+    unknowns = [("Hole", ("e", SHAPE, "Hole", ())),
+                ("any", ("e", SHAPE, "Narrowed", (("0", ("e", "ucglib::ast::NarrowedShape", None, (("types", ("e", NARROWING, "Any", ())),))),)))]
+    for v in ("Map", "Filter", "Reduce"):
+        sites = [b for b, t in fn.calls() if callee(t) in DS and ("field", "target") in o.at(t["args"][0], b) and ("variant", v) in o.at(t["args"][0], b)]
+        need(len(sites) == 1, "derive_func_op_shape: the target of %s is not derived exactly once (%d)" % (v, len(sites)))
+        for uname, uval in unknowns:
+            sim = AI.Sim(F, site=(name, sites[0]), forced=uval, depth=1, force_all={c: func_shape for c in DS},
+                         opaque={c for c in F.fns if c.startswith(SHAPE + "::")})
+            args = [AI.U] * fn.nargs
+            args[0] = ("r", (1, ("*",)))
+            try:
+                res = sim.run(fn, args, init={(1, ("*",)): ("e", "ucglib::ast::FuncOpDef", v, ())})
+            except AI.Lossy:
+                need(False, "derive_func_op_shape: state space too large for the evaluation")
+            need(any(x[0] for x in res), "derive_func_op_shape: the evaluation does not reach the %s arm" % v)
+            hit = sorted(x for x in sim.visited_fired if x in terr)
+            r.inst("%s:target-%s:any-callback" % (v, uname), fn.where(sites[0]), not hit,
+                   "no type error is built for a target of unknown kind" if not hit else
+                   "a type error is built at %s for a target the checker knows nothing about: `let t = filter(f, {a = 1}); map(func(k, v) => [k, v], t)` "
+                   "is rejected for its two-parameter callback although the VM maps over the tuple" % F.fns[hit[0][0]].where(hit[0][1]))
+    return r
+
+
 from . import c09 as _c09
 
-RULES = [r21a, r21b, r21c, r21h, r21p, r21s, r21d, r21n, r21q, r21m, r21e, _c09.r25p]
+RULES = [r21a, r21b, r21c, r21h, r21p, r21s, r21d, r21n, r21q, r21m, r21e, r21f, _c09.r25p]
